@@ -40,6 +40,7 @@ import CtyModel.Lemmas.ConvertD08CoversColl
 import CtyModel.Lemmas.d08bUnmark
 import CtyModel.Lemmas.d08bFrontier
 import CtyModel.Lemmas.d08bKept
+import CtyModel.Lemmas.d08bSetRT
 namespace CtyModel
 namespace C08
 open Convert Ty
@@ -210,6 +211,33 @@ theorem identity_own_type (E : Env) (fuel : Nat) (v : Value) (hw : Value.wt v = 
 theorem idempotent_partial (E : Env) (hU : UnifyLaws E) (fuel fuel' : Nat) (v r : Value) (want : Ty)
     (hp : RegularPair v want) (h : convert E fuel v want = .ok r) : convert E fuel' r want = .ok r :=
   convert_idempotent hU hp h
+
+/-- Full statement of idempotence, placeholders in the target included.  FALSE of the code — see
+`idempotent_counterexample` (recorded finding `idempotent / empty-collection-keeps-nested-placeholder`). -/
+def Idempotent : Prop :=
+  ∀ (E : Env) (fuel fuel' : Nat) (v r : Value) (want : Ty), UnifyLaws E → Value.wt v = true → want.wf = true →
+    convert E fuel v want = .ok r → convert E fuel' r want = .ok r ∨ convert E fuel' r want = .unmodelled
+
+/-- the witness, in the driver's environment: a tuple of two maps of lists of strings, the second
+EMPTY, converted to list(map(list(placeholder))).  The first conversion unifies the element types
+(`map(list(string))` and the empty map's `map(list(placeholder))`) to `map(list(string))` and
+succeeds; its result conforms to the target; converting the result AGAIN fails, because the empty
+map now takes the target's element type as written and no longer matches its neighbour. -/
+theorem idempotent_counterexample :
+    convert driverEnv 16 ⟨.tuple [.map (.list .string), .map (.list .string)],
+        .seq [.smap ["m"] [.seq [.s "x"]], .smap [] []]⟩ (.list (.map (.list .dyn))) =
+      .ok ⟨.list (.map (.list .string)), .seq [.smap ["m"] [.seq [.s "x"]], .smap [] []]⟩ ∧
+    conformsTo (.list (.map (.list .dyn)))
+      ⟨.list (.map (.list .string)), .seq [.smap ["m"] [.seq [.s "x"]], .smap [] []]⟩ = true ∧
+    convert driverEnv 16 ⟨.list (.map (.list .string)), .seq [.smap ["m"] [.seq [.s "x"]], .smap [] []]⟩
+        (.list (.map (.list .dyn))) = .err "element types must all match for conversion to list" := by
+  refine ⟨rfl, by decide, rfl⟩
+
+theorem idempotent_false : ¬ Idempotent := by
+  intro h
+  have := h driverEnv 16 16 _ _ _ (Unify.unifyLaws_std (Env.concrete Unify.unifyTy)) (by decide) (by decide) idempotent_counterexample.1
+  rw [idempotent_counterexample.2.2] at this
+  simp at this
 
 /-- Full statement of "a value that already conforms to the requested type converts to itself",
 placeholders in the target included, for values without unknown parts (an unknown converts to an
@@ -871,6 +899,23 @@ theorem roundtrip_tuple_list (E : Env) (hU : UnifyLaws E) (fuel : Nat) (T : Ty) 
     (hne : its ≠ []) (hall : ∀ it ∈ its, it = T) (hw : wtZip its ps = true) :
     convert E (fuel + 2) ⟨.tuple its, .seq ps⟩ (.list T) = .ok ⟨.list T, .seq ps⟩ :=
   tuple_to_list_same hU fuel T its ps hT hTo hTd hne hall hw
+
+/-- **set → list → set**: a wholly known set of a placeholder-free element type with unmarked members
+converts (safely) to the list of its members in iteration order, and converting that list back to
+the set type (an unsafe conversion) returns the ORIGINAL set — for every environment and every
+fuel ≥ 2.  `D08B.setCanon`, the one fact about `set.Set` this rests on, is a decidable side condition:
+rebuilding the set from its members in iteration order reproduces its payload (bucket ids = the
+members' hashes, insertion order inside a bucket); true of every set the library builds. -/
+theorem roundtrip_set_list_set_partial (E : Env) (fuel : Nat) (e : Ty) (ids : List Int) (ps : List Payload)
+    (he : wf e = true) (heo : hasOpt e = false) (hed : hasDyn e = false) (hne : ps ≠ [])
+    (hwk : Payload.whollyKnownL ps = true) (hcl : Payload.containsMarkedL ps = false)
+    (hcanon : D08B.setCanon E e ids ps) :
+    convert E (fuel + 2) ⟨.set e, .sset ids ps⟩ (.list e) = .ok ⟨.list e, .seq (setValues E e ps)⟩ ∧
+    convert E (fuel + 2) ⟨.list e, .seq (setValues E e ps)⟩ (.set e) = .ok ⟨.set e, .sset ids ps⟩ :=
+  D08B.set_list_set_same fuel e ids ps he heo hed hne hwk hcl hcanon
+
+/-- the side condition is satisfiable: {"a", "b"} in the simple environment -/
+example : D08B.setCanon Env.simple .string [0, 0] [.s "a", .s "b"] := rfl
 
 /-- object → map → object: an object whose attributes all have the placeholder-free
 type `T` (and hold no null) converts to `map(T)` with the same keys and members, and
